@@ -77,4 +77,58 @@ theorem where_shortcut_needs_guard :
     (bshape [] [1]).bind (fun cx => bshape cx [3]) = some [3] ∧ knownToBroadcastInto [3] [1] = false := by
   decide
 
+/-! ### absorption: broadcasting an operand against the common shape -/
+
+theorem bdim_self (a : Nat) : bdim a a = some a := by simp [bdim]
+
+theorem bdim_absorb (a b d : Nat) (h : bdim a b = some d) : bdim a d = some d := by
+  unfold bdim at h ⊢
+  by_cases h1 : a = b
+  · subst h1; simp at h; subst h; simp
+  · simp only [h1, if_false] at h
+    by_cases h2 : a = 1
+    · simp only [h2, if_true] at h
+      injection h with h; subst h
+      subst h2
+      by_cases h3 : 1 = b <;> simp [h3]
+    · simp only [h2, if_false] at h
+      by_cases h3 : b = 1
+      · simp only [h3, if_true] at h
+        injection h with h; subst h; simp
+      · simp [h3] at h
+
+theorem bshapeRev_self : ∀ (s : List Nat), bshapeRev s s = some s
+  | [] => rfl
+  | a :: s => by simp [bshapeRev, bdim_self, bshapeRev_self s]
+
+theorem bshapeRev_absorb : ∀ (s t r : List Nat), bshapeRev s t = some r → bshapeRev s r = some r
+  | [], t, r, h => by simp [bshapeRev] at h; subst h; simp [bshapeRev]
+  | a :: s, [], r, h => by
+    simp [bshapeRev] at h; subst h; exact bshapeRev_self _
+  | a :: s, b :: t, r, h => by
+    simp only [bshapeRev] at h
+    cases hd : bdim a b with
+    | none => simp [hd] at h
+    | some d =>
+      cases hr : bshapeRev s t with
+      | none => simp [hd, hr] at h
+      | some r' =>
+        simp only [hd, hr] at h
+        injection h with h; subst h
+        simp [bshapeRev, bdim_absorb a b d hd, bshapeRev_absorb s t r' hr]
+
+/-- Broadcasting an operand against the common shape gives the common shape. -/
+theorem bshape_absorb (s t r : List Nat) (h : bshape s t = some r) : bshape s r = some r := by
+  unfold bshape at h ⊢
+  cases hq : bshapeRev s.reverse t.reverse with
+  | none => simp [hq] at h
+  | some q =>
+    simp only [hq, Option.map_some] at h
+    injection h with h; subst h
+    simp [bshapeRev_absorb _ _ _ hq]
+
+theorem bshape_absorb_right (s t r : List Nat) (h : bshape s t = some r) : bshape t r = some r :=
+  bshape_absorb t s r (by rw [bshape_comm]; exact h)
+
+
 end Ndx
